@@ -137,6 +137,9 @@ def plan(tier, seed):
             specs.append({"kind": "wide_deep", "store": store, "family": fam, "width": [3000, 20000][r % 2] if q else int(2000 + 4000 * r), "depth": [120, 180][r % 2] if q else 60 + 10 * r, "neutral": bool(r % 2)})
     for r in range(2 if q else 6):
         specs.append({"kind": "import_env", "store": "fresh_interpreter", "how": ["QUANTEM_CONFIG", "HOME"][r % 2], "rep": r})
+    for sp in specs:  # rare kinds carry required monitors: never dropped by the soft time budget
+        if sp["kind"] in ("wide_deep", "import_env"):
+            sp["_must_run"] = True
     # interleave so that every worker sees all kinds early (soft budget cuts the tail, not a kind)
     rng = np.random.default_rng([seed, 19, 7])
     order = rng.permutation(len(specs))
